@@ -355,7 +355,7 @@ def quiesce(wire, ends, transports, extra_busy=lambda: False, limit=60.0):
 
 
 def run_real(ctx_repo, kex_name, strict_c, strict_s, script, do_auth=True, do_rekey=0, ext_info=True,
-             once_c=False, once_s=False, suite=None, mpos_c=None, mpos_s=None):
+             once_c=False, once_s=False, suite=None, mpos_c=None, mpos_s=None, preset=None):
     """Run one scenario on the real code; returns the observation dict."""
     import paramiko
     Recorder = make_recorder()
@@ -393,6 +393,11 @@ def run_real(ctx_repo, kex_name, strict_c, strict_s, script, do_auth=True, do_re
                 if macs:
                     t_.get_security_options().digests = macs
         obs["cipher"] = None
+        # counters preset near the 32-bit boundary ({"c_in": v, "s_out": v, ...}) instead of really
+        # exchanging 2**32 packets
+        for key, v in (preset or {}).items():
+            t_ = tc if key[0] == "c" else ts
+            setattr(t_.packetizer, "_Packetizer__sequence_number_" + key[2:], int(v))
         evc, evs = threading.Event(), threading.Event()
         ts.start_server(event=evs, server=server_interface())
         tc.start_client(event=evc)
@@ -502,9 +507,11 @@ def coq_case(sc):
     for (d, i), ops in sorted(sc["script"].items()):
         for op in ops:
             script.append((d == "c2s", i, -1 if op[0] == "drop" else op[1]))
-    return "(%d, %s, %s, true, %d, %s, %s, %s)" % (
+    pre = sc.get("preset") or {}
+    return "(%d, %s, %s, true, %d, %s, %s, %d, %d, %s)" % (
         kex_family(sc["kex"]), coq(sc["strict_c"]), coq(sc["strict_s"]), int(sc["rekey"]),
-        coq(bool(sc.get("once_c"))), coq(bool(sc.get("once_s"))), coq(script))
+        coq(bool(sc.get("once_c"))), coq(bool(sc.get("once_s"))), int(pre.get("c_in", 0)), int(pre.get("s_in", 0)),
+        coq(script))
 
 
 def post_newkeys_edit(sc):
@@ -539,12 +546,37 @@ def oracle(ctx, sc, obs):
     case = {"kex": sc["kex"], "strict_c": sc["strict_c"], "strict_s": sc["strict_s"], "rekey": int(sc["rekey"]),
             "once_c": bool(sc.get("once_c")), "once_s": bool(sc.get("once_s")),
             "suite": sc.get("suite"), "mpos_c": sc.get("mpos_c"), "mpos_s": sc.get("mpos_s"),
+            "preset": dict(sc.get("preset") or {}),
             "script": [[d, i, list(op)] for (d, i), ops in sorted(sc["script"].items()) for op in ops]}
     both = sc["strict_c"] and sc["strict_s"]
+    pre = sc.get("preset") or {}
     for me, other in (("c", "s"), ("s", "c")):
         d = obs[me]
         o = obs[other]
         rx, tx = d["rx"], d["tx"]
+        # (0) neither counter may pass 2**32 - 1 while the initial key exchange is running (otherwise a
+        # KEXINIT preceded by 2**32 packets would carry sequence number 0 again): the packet that would
+        # take the counter from 0xffffffff to 0 must end the connection, in either direction
+        first = []
+        for t, sq in rx:
+            first.append((t, sq))
+            if t == NEWKEYS:
+                break
+        if any(sq == 0xFFFFFFFF for _, sq in first):
+            ctx.fail("rollover-in-initial-kex", "a packet was read under inbound sequence number 2**32-1 during the "
+                     "initial key exchange (the counter wraps to 0: a later KEXINIT would look like the first "
+                     "packet); Packetizer.read_message must raise instead", case=case,
+                     expected="SSHException: Sequence number rolled over during initial kex", observed=d)
+        nk_out = [i for i, (t, _) in enumerate(tx) if t == NEWKEYS]
+        nk_in = [i for i, (t, _) in enumerate(rx) if t == NEWKEYS]
+        for i, (t, sq) in enumerate(tx):
+            if sq == 0xFFFFFFFF and not nk_in and (not nk_out or i <= nk_out[0]) \
+                    and (i != len(tx) - 1 or d["status"] != 4):
+                # (the recorder logs the packet before send_message raises: it must be the last one)
+                ctx.fail("rollover-in-initial-kex", "a packet was sent under outbound sequence number 2**32-1 during "
+                         "the initial key exchange without ending the connection", case=case,
+                         expected="SSHException: Sequence number rolled over during initial kex", observed=d)
+                break
         if both and rx and rx[0][0] == KEXINIT and rx[0][1] == 0 and not d.get("agreed1", d["agreed"]) \
                 and (d["done"] or d["status"] in (0, 5)):
             ctx.fail("strict-not-agreed", "both sides advertise strict kex but it was not agreed", case=case,
@@ -564,7 +596,8 @@ def oracle(ctx, sc, obs):
                 if t == NEWKEYS:
                     break
             for k, (t, s) in enumerate(init):
-                bad = k >= len(want) or t != want[k] or (t == KEXINIT and s != 0) or s != k
+                bad = k >= len(want) or t != want[k] or (t == KEXINIT and s != 0) or \
+                    (s != k and not pre.get(me + "_in"))
                 if bad:
                     # the offending packet must be the last thing this side ever read, and it must
                     # have terminated (MessageOrderError, or DISCONNECT closing the transport)
@@ -592,7 +625,7 @@ def oracle(ctx, sc, obs):
                                      "restart at zero after NEWKEYS (packet type %d carries %d, expected %d)"
                                      % (name, t, s, k), case=case, expected=k, observed=d)
                             break
-                if len(segs) > 1 and final != len(segs[-1]) and not (name == "inbound" and d["status"] != 0):
+                if len(segs) > 1 and final != len(segs[-1]) and d["status"] == 0:
                     ctx.fail("seqno-not-reset", "strict kex agreed but the %s sequence number did not restart "
                              "at zero after NEWKEYS" % name, case=case, expected=len(segs[-1]), observed=d)
             # (3) no shifted session: what this side read after NEWKEYS is exactly what the other side
@@ -608,7 +641,7 @@ def oracle(ctx, sc, obs):
             and (obs.get("cipher") or (None,))[0] != SUITES[sc["suite"]][0][0]:
         ctx.fail("suite-not-negotiated", "the requested cipher suite was not negotiated", case=case,
                  expected=SUITES[sc["suite"]], observed=obs.get("cipher"))
-    if not sc["script"]:
+    if not sc["script"] and not pre:
         if not obs.get("authed"):
             ctx.fail("clean-handshake-fails", "an unmodified handshake + authentication does not complete",
                      case=case, observed={"c": obs["c"], "s": obs["s"]})
@@ -625,8 +658,8 @@ def build_scenarios(ctx, kex_names):
     scs = []
 
     def add(kex, sc_, ss_, script, rekey=0, kind="inject", once_c=False, once_s=False, suite=None,
-            mpos_c=None, mpos_s=None):
-        scs.append({"kex": kex, "strict_c": sc_, "strict_s": ss_, "script": script, "rekey": int(rekey),
+            mpos_c=None, mpos_s=None, preset=None):
+        scs.append({"preset": dict(preset or {}), "kex": kex, "strict_c": sc_, "strict_s": ss_, "script": script, "rekey": int(rekey),
                     "kind": kind, "once_c": once_c, "once_s": once_s, "suite": suite,
                     "mpos_c": mpos_c, "mpos_s": mpos_s})
 
@@ -660,6 +693,22 @@ def build_scenarios(ctx, kex_names):
                     add(kex, True, True, {("c2s", nk_c): [("inject", DEBUG_)]}, kind="suite-" + suite, suite=suite)
                 if not suite.startswith("gcm"):
                     add(kex, False, False, {("s2c", nk_s): [("inject", IGNORE)]}, kind="suite-" + suite, suite=suite)
+            # counters at the 32-bit boundary, both directions, both roles
+            M = 1 << 32
+            nin = len(st["c2s"])          # packets of the initial exchange per direction (without EXT_INFO)
+            for side, d_to in (("c", "s2c"), ("s", "c2s")):
+                for back in range(1, nin + 2):
+                    for sc_, ss_ in ((True, True), (False, False)):
+                        if back > 2 and sc_ and not ctx.thorough:
+                            continue
+                        add(kex, sc_, ss_, {}, kind="rollover-in", preset={side + "_in": M - back})
+                    add(kex, True, True, {}, kind="rollover-out", preset={side + "_out": M - back})
+                for sc_, ss_ in ((True, True), (False, False)):
+                    # 2**32 - 1 packets swallowed, one more ahead of the peer's KEXINIT: KEXINIT would carry 0
+                    add(kex, sc_, ss_, {(d_to, 0): [("inject", IGNORE)]}, kind="rollover-in",
+                        preset={side + "_in": M - 1})
+                    add(kex, sc_, ss_, {(d_to, 0): [("inject", DEBUG_), ("inject", IGNORE)]}, kind="rollover-in",
+                        preset={side + "_in": M - 2})
             # the kex-strict name first / in the middle of the peer's kex_algorithms list
             for pos in ("first", "mid"):
                 for mc_, ms_ in ((pos, None), (None, pos), (pos, pos)):
@@ -723,7 +772,9 @@ def run(ctx):
                 "clean handshakes with authentication and one or two re-keys, also against a peer that (like "
                 "OpenSSH) repeats its kex-strict name only in the initial KEXINIT (either role, both), followed "
                 "by a global request that must be answered; AEAD (aes128/256-gcm), CBC+EtM and another CTR/HMAC suite; peers "
-                "that put the kex-strict name first / in the middle of their kex_algorithms list (either role, both). Every case is a full real client/server "
+                "that put the kex-strict name first / in the middle of their kex_algorithms list (either role, both); "
+                "sequence counters preset to 2**32-1 .. 2**32-(n+1) (inbound and outbound, both roles, strict and "
+                "not), alone and with IGNORE/DEBUG inserted ahead of the peer's KEXINIT (roll-over boundary). Every case is a full real client/server "
                 "handshake; a case is non-trivial when its script is non-empty or it includes a re-key")
     ctx.trusted += ["gen/c09.py (AST + live-object translator of message numbers, kex engine tables, strict-kex "
                     "call sites and reset statements; fail-closed)",
@@ -753,17 +804,20 @@ def run(ctx):
     for sc in scs:
         obs = run_real(ctx.repo, sc["kex"], sc["strict_c"], sc["strict_s"], sc["script"],
                        do_auth=True, do_rekey=sc["rekey"], once_c=sc["once_c"], once_s=sc["once_s"],
-                       suite=sc["suite"], mpos_c=sc["mpos_c"], mpos_s=sc["mpos_s"])
+                       suite=sc["suite"], mpos_c=sc["mpos_c"], mpos_s=sc["mpos_s"], preset=sc["preset"])
         if not all(obs.get(k, True) for k in ("settled1", "settled2", "settled3")) or obs.get("auth_hang"):
             # retry once before believing anything timing dependent
             obs = run_real(ctx.repo, sc["kex"], sc["strict_c"], sc["strict_s"], sc["script"],
                            do_auth=True, do_rekey=sc["rekey"], once_c=sc["once_c"], once_s=sc["once_s"],
-                       suite=sc["suite"], mpos_c=sc["mpos_c"], mpos_s=sc["mpos_s"])
+                       suite=sc["suite"], mpos_c=sc["mpos_c"], mpos_s=sc["mpos_s"], preset=sc["preset"])
         case = oracle(ctx, sc, obs)
         ctx.count((sc["kex"], sc["strict_c"], sc["strict_s"], sorted(sc["script"].items()), sc["rekey"],
-                   sc["once_c"], sc["once_s"], sc["suite"], sc["mpos_c"], sc["mpos_s"]),
-                  nontrivial=bool(sc["script"]) or sc["rekey"], kind=sc["kind"])
-        if post_newkeys_edit(sc) or injects_newkeys(sc):
+                   sc["once_c"], sc["once_s"], sc["suite"], sc["mpos_c"], sc["mpos_s"],
+                   sorted(sc["preset"].items())),
+                  nontrivial=bool(sc["script"]) or bool(sc["rekey"]) or bool(sc["preset"]), kind=sc["kind"])
+        if any(k.endswith("_out") for k in sc["preset"]):
+            pass      # the outbound roll-over guard is not in the model: implementation-level oracle only
+        elif post_newkeys_edit(sc) or injects_newkeys(sc):
             coarse.append((sc, obs, case))
         else:
             exact.append((sc, obs, case))
@@ -772,7 +826,7 @@ def run(ctx):
                         "server": {k: obs["s"][k] for k in ("status", "exc", "rx", "tx", "seqs")}})
 
     # ---- correspondence: whole traces against the model's network simulator ----
-    ctype = "(Z * bool * bool * bool * Z * bool * bool * script)"
+    ctype = "(Z * bool * bool * bool * Z * bool * bool * Z * Z * script)"
     # (model calls are guarded: a translator abort / model that no longer compiles must not stop the
     # implementation-level oracle above from reporting its concrete failing inputs)
     try:
@@ -868,10 +922,10 @@ def replay(ctx, rep):
     sc = {"kex": case["kex"], "strict_c": case["strict_c"], "strict_s": case["strict_s"], "script": script,
           "rekey": int(case.get("rekey", 0)), "kind": "replay", "once_c": bool(case.get("once_c")),
           "once_s": bool(case.get("once_s")), "suite": case.get("suite"), "mpos_c": case.get("mpos_c"),
-          "mpos_s": case.get("mpos_s")}
+          "mpos_s": case.get("mpos_s"), "preset": dict(case.get("preset") or {})}
     obs = run_real(ctx.repo, sc["kex"], sc["strict_c"], sc["strict_s"], script, do_auth=True, do_rekey=sc["rekey"],
                    once_c=sc["once_c"], once_s=sc["once_s"], suite=sc["suite"], mpos_c=sc["mpos_c"],
-                   mpos_s=sc["mpos_s"])
+                   mpos_s=sc["mpos_s"], preset=sc["preset"])
     ctx.count(("replay", repr(case)))
     ctx.count(("replay2", repr(case)))
     oracle(ctx, sc, obs)
